@@ -73,6 +73,10 @@ func addressesWrapper(w *world, steps []string) bool {
 }
 
 func judge(c *Case) (sig, detail string) {
+	return interp.Guard(func() (string, string) { return judgeRaw(c) }, func() { vt.Discard("an evaluation of this case ran out of its budget (inconclusive)") })
+}
+
+func judgeRaw(c *Case) (sig, detail string) {
 	in := interp.Shared()
 	w := &world{in, object.NewEnclosedEnv(in.Global)}
 	if o := w.run(prelude); o.Kind != interp.Value {
@@ -205,7 +209,7 @@ var errTypes = []string{"ValueErr", "TypeErr", "Err", "ZeroDivisionErr", "NameEr
 // genCase builds a chain of k steps over a receiver of a known kind; the kind is tracked so that steps stay applicable.
 func genCase(t *rapid.T) Case {
 	c := Case{Class: "callable-steps"}
-	kind := rapid.SampledFrom([]string{"obj", "obj", "int", "int", "str", "arr", "nil"}).Draw(t, "recv")
+	kind := rapid.SampledFrom([]string{"obj", "obj", "int", "int", "str", "arr", "nil", "proxy"}).Draw(t, "recv")
 	switch kind {
 	case "obj":
 		c.Recv = "O.bear({v: 1})"
@@ -220,6 +224,9 @@ func genCase(t *rapid.T) Case {
 		c.Recv = rapid.SampledFrom([]string{"[3, 1, 2]", "[]", "[1, 2]"}).Draw(t, "a")
 	case "nil":
 		c.Recv = "nil"
+	case "proxy":
+		// the receiver of try handles literal calls itself (an Either, or an object with its own _literalProxy)
+		c.Recv = rapid.SampledFrom([]string{"(1.try.{|x| x / 0})", "(2.try)", "(nil.try)", "{v: 6, _literalProxy: m{|f| \"P\".p; [.v, 'proxied]}}", "(1.try.{|x| x / 0}.try)"}).Draw(t, "proxy recv")
 	}
 	k := rapid.IntRange(1, 5).Draw(t, "k")
 	failAt := -1
@@ -315,6 +322,20 @@ func genCase(t *rapid.T) Case {
 			default:
 				s = fmt.Sprintf(".{|x| \"s%d\".p; [*x, %d]}", i, i)
 			}
+		case "proxy":
+			switch rapid.IntRange(0, 3).Draw(t, "step") {
+			case 0:
+				s = fmt.Sprintf(".{|e| \"s%d\".p; 5}", i)
+			case 1:
+				s = fmt.Sprintf(".{\"s%d\".p; 6}", i)
+			case 2:
+				s = ".^g2"
+			default:
+				s = fmt.Sprintf(".{|a, b| \"s%d\".p; [a, b]}", i)
+			}
+			if fail {
+				s = ".^gbad"
+			}
 		case "errval":
 			// the value held is an error object that was returned, not raised: the chain goes on
 			switch rapid.IntRange(0, 2).Draw(t, "step") {
@@ -346,7 +367,11 @@ func genCase(t *rapid.T) Case {
 				kind = "str"
 			}
 		}
-		if !fail && kind != "errval" && rapid.IntRange(0, 9).Draw(t, "returns an error value") == 0 {
+		if !fail && kind != "errval" && kind != "proxy" && rapid.IntRange(0, 11).Draw(t, "returns a failed Either") == 0 {
+			// this step succeeds and its result is a failed Either that nobody abandoned: the outer chain has not failed
+			s = fmt.Sprintf(".{|x| \"s%d\".p; 3.try.{|y| raise ValueErr.new(\"inner\")}}", i)
+			kind = "proxy"
+		} else if !fail && kind != "errval" && kind != "proxy" && rapid.IntRange(0, 9).Draw(t, "returns an error value") == 0 {
 			// this step succeeds and its result is an error value (held by another try, or made with new)
 			s = rapid.SampledFrom([]string{fmt.Sprintf(".{|x| \"s%d\".p; 1.try.{|y| y / 0}.err}", i), fmt.Sprintf(".{|x| \"s%d\".p; nil.try.{|y| raise ValueErr.new(\"held\")}.err}", i)}).Draw(t, "errval step")
 			kind = "errval"
